@@ -591,7 +591,7 @@ func TestC13(t *testing.T) {
 		"after release the stalled channel emits an ordered subsequence with at most 64+1 items of the stall period and later writes reach everybody; (b) the j-th transport Write fails once / persistently, " +
 		"or an unencodable item (raw id outside the dialect to all / to one, id > 255 message or frame on a v1 node, raw frame of unknown id) is inserted at every position of a history: the channel is " +
 		"either reported closed or keeps emitting (at least attempting) every later valid write. distinct = (fault class, position, channels, victim)")
-	rep.RuleAdd("Also: an overflow whose backlog is drained by failing writes before the link works again; a stalled channel with a full queue that receives first heartbeats of new ArduPilot senders and more frames (events go on); real TCP peers that stop and resume reading.")
+	rep.RuleAdd("Also: an overflow whose backlog is drained by failing writes before the link works again; a stalled channel with a full queue that receives first heartbeats of new ArduPilot senders and more frames (events go on); real TCP peers that stop and resume reading. An outage (every write failing for four write timeouts while the application keeps writing) after which the link works again.")
 	rep.Assume("flow control counts only healthy channels; quiescence by the no-progress criterion (1.2-1.5 s, no timers configured in these scenarios)")
 	seed := shardSeed()
 	shard, nsh := shardInfo()
